@@ -29,7 +29,7 @@ def main():
         })
     m = {
         "version": 1,
-        "setup_cmd": "/verif/coq/build.sh",
+        "setup_cmd": "/verif/coq/pregen.sh && /verif/coq/build.sh",
         "hooks": {
             "guard": "NIPYPE_PYDRA_VERIF",
             "enable": "export NIPYPE_PYDRA_VERIF=1 (done by /verif/check); the package is imported from /repo's working tree via PYTHONPATH=/repo, nothing is built",
